@@ -57,15 +57,21 @@ func builtinJSONReviveWalk(ctx builtinJSONParseContext, holder *object, name str
 				}
 			}
 		} else {
+			// The list of keys is taken before the walk (ES5 15.12.2 Walk 2.b.i):
+			// the reviver may delete or add properties while we iterate.
+			var keys []string
 			obj.enumerate(false, func(name string) bool {
+				keys = append(keys, name)
+				return true
+			})
+			for _, name := range keys {
 				enumVal := builtinJSONReviveWalk(ctx, obj, name)
 				if enumVal.IsUndefined() {
 					obj.delete(name, false)
 				} else {
 					obj.defineProperty(name, enumVal, 0o111, false)
 				}
-				return true
-			})
+			}
 		}
 	}
 	return ctx.reviver.call(ctx.call.runtime, objectValue(holder), name, value)
